@@ -215,6 +215,60 @@ class _Canon(ast.NodeTransformer):
         return node
 
 
+def _append_loops(fn):
+    """N14: `acc = []` followed by `for x in IT: <pure local definitions>; acc.append(E)` -> `acc = [E' for x in IT]` (E' = E with the
+    loop-local definitions substituted), when the loop has no other statement, no else, and its locals are not read outside it."""
+    from .sem import is_pure
+
+    def blocks(node):
+        for f in ("body", "orelse", "finalbody"):
+            v = getattr(node, f, None)
+            if isinstance(v, list) and v and isinstance(v[0], ast.stmt):
+                yield v
+        for h in getattr(node, "handlers", []) or []:
+            yield h.body
+    for node in list(ast.walk(fn)):
+        if isinstance(node, (ast.ClassDef,)) or (isinstance(node, ast.FunctionDef) and node is not fn):
+            continue
+        for blk in blocks(node):
+            i = 0
+            while i + 1 < len(blk):
+                a, lp = blk[i], blk[i + 1]
+                i += 1
+                if not (isinstance(a, ast.Assign) and len(a.targets) == 1 and isinstance(a.targets[0], ast.Name) and isinstance(a.value, ast.List) and not a.value.elts):
+                    continue
+                acc = a.targets[0].id
+                if not (isinstance(lp, ast.For) and not lp.orelse and lp.body and isinstance(lp.target, (ast.Name, ast.Tuple))):
+                    continue
+                last = lp.body[-1]
+                if not (isinstance(last, ast.Expr) and isinstance(last.value, ast.Call) and isinstance(last.value.func, ast.Attribute) and last.value.func.attr == "append"
+                        and isinstance(last.value.func.value, ast.Name) and last.value.func.value.id == acc and len(last.value.args) == 1 and not last.value.keywords):
+                    continue
+                defs = lp.body[:-1]
+                if not all(isinstance(d, ast.Assign) and len(d.targets) == 1 and isinstance(d.targets[0], ast.Name) and is_pure(d.value) for d in defs):
+                    continue
+                locs = [d.targets[0].id for d in defs]
+                if len(set(locs)) != len(locs) or acc in locs:
+                    continue
+                inside = {id(x) for x in ast.walk(lp)}
+                if any(isinstance(x, ast.Name) and x.id in locs and id(x) not in inside for x in ast.walk(fn)):
+                    continue
+                if any(isinstance(x, ast.Name) and x.id == acc for x in ast.walk(lp.iter)) or any(isinstance(x, ast.Name) and x.id == acc for d in defs for x in ast.walk(d.value)) \
+                        or any(isinstance(x, ast.Name) and x.id == acc for x in ast.walk(last.value.args[0])):
+                    continue
+                # substitute definitions into one another first (in order), then into E
+                env = {}
+                for d in defs:
+                    v = copy.deepcopy(d.value)
+                    if env:
+                        v = _Rename(dict(env)).visit(v)
+                    env[d.targets[0].id] = v
+                e = _Rename(dict(env)).visit(copy.deepcopy(last.value.args[0])) if env else copy.deepcopy(last.value.args[0])
+                comp = ast.ListComp(elt=e, generators=[ast.comprehension(target=lp.target, iter=lp.iter, ifs=[], is_async=0)])
+                blk[i - 1:i + 1] = [_loc(ast.Assign(targets=[a.targets[0]], value=comp), a)]
+    return fn
+
+
 def _terminates(stmts) -> bool:
     return bool(stmts) and isinstance(stmts[-1], (ast.Return, ast.Raise, ast.Continue, ast.Break))
 
@@ -372,6 +426,13 @@ def _pure_expr(v) -> bool:
     return is_pure(v)
 
 
+def _why(line):
+    if os.environ.get("TIV_INLINE_DEBUG") and line not in (504, 601, 604, 607, 621, 624):
+        import sys
+        print(f"[inline] rejected at normalize.py:{line}", file=sys.stderr)
+    return None
+
+
 class Inliner:
     def __init__(self, model, rel, owner_cls, stack=()):
         self.m, self.rel, self.cls, self.stack = model, rel, owner_cls, stack
@@ -399,7 +460,7 @@ class Inliner:
                         if isinstance(cand, ast.FunctionDef):
                             cand._defrel = drel
                             return cand, None, "module"
-            return None
+            return _why(402)
         if isinstance(f, ast.Attribute):
             name = f.attr
             base = ast.unparse(f.value)
@@ -409,13 +470,13 @@ class Inliner:
                         kind = "static" if any(ast.unparse(d) == "staticmethod" for d in s.decorator_list) else (
                             "class" if any(ast.unparse(d) == "classmethod" for d in s.decorator_list) else "method")
                         return s, f.value, kind
-        return None
+        return _why(412)
 
     def _bind(self, callee, call, recv, kind, expr_mode=False):
         """-> (prefix assignments, rename mapping) or None if the call cannot be bound simply."""
         a = callee.args
         if a.vararg or a.kwarg or a.posonlyargs and False:
-            return None
+            return _why(418)
         params = [p.arg for p in a.posonlyargs + a.args]
         defaults = dict(zip(params[len(params) - len(a.defaults):], a.defaults)) if a.defaults else {}
         kwonly = [p.arg for p in a.kwonlyargs]
@@ -423,7 +484,7 @@ class Inliner:
         vals = {}
         pos = list(call.args)
         if any(isinstance(x, ast.Starred) for x in pos) or any(k.arg is None for k in call.keywords):
-            return None
+            return _why(426)
         plist = list(params)
         if kind in ("method", "class") and plist:
             first = plist.pop(0)
@@ -432,18 +493,18 @@ class Inliner:
             else:
                 vals[first] = recv if ast.unparse(recv) in ("cls",) else ast.Call(func=ast.Name(id="type", ctx=ast.Load()), args=[recv], keywords=[]) if ast.unparse(recv) == "self" else recv
         if len(pos) > len(plist):
-            return None
+            return _why(435)
         for p, v in zip(plist, pos):
             vals[p] = v
         for k in call.keywords:
             if k.arg in vals or k.arg not in plist + kwonly:
-                return None
+                return _why(440)
             vals[k.arg] = k.value
         for p in plist + kwonly:
             if p not in vals:
                 d = defaults.get(p, kwdef.get(p))
                 if d is None:
-                    return None
+                    return _why(446)
                 vals[p] = d
         prefix, mapping = [], {}
         assigned = {t.id for s in callee.body for n in ast.walk(s) for t in ([n.target] if isinstance(n, (ast.AugAssign, ast.AnnAssign, ast.For)) else getattr(n, "targets", []))
@@ -463,14 +524,14 @@ class Inliner:
 
     def _body_of(self, callee, call, recv, kind, keep_names=()):
         if callee.name in self.stack or len(self.stack) >= 3:
-            return None
+            return _why(466)
         if any(isinstance(x, (ast.Yield, ast.YieldFrom, ast.Nonlocal)) for s in callee.body for x in ast.walk(s)) and kind != "closure":
-            return None
+            return _why(468)
         if any(isinstance(x, (ast.Yield, ast.YieldFrom)) for s in callee.body for x in ast.walk(s)):
-            return None
+            return _why(470)
         b = self._bind(callee, call, recv, kind)
         if b is None:
-            return None
+            return _why(473)
         prefix, mapping = b
         body = [copy.deepcopy(s) for s in callee.body if not (isinstance(s, ast.Expr) and isinstance(s.value, ast.Constant) and isinstance(s.value.value, str))]
         body = [s for s in body if not isinstance(s, (ast.Nonlocal,))]
@@ -501,7 +562,7 @@ class Inliner:
                         and all(isinstance(x, (ast.Name, ast.Attribute, ast.Constant, ast.Load)) for x in ast.walk(b_[0].value)) \
                         and not any(isinstance(x, ast.Name) and x.id in pnames for x in ast.walk(b_[0].value)):
                     return ast.unparse(b_[0].value)      # only plain reads (`image = self._image`), never calls, never the callee's parameters
-                return None
+                return _why(504)
             # re-executing the caller's own (sole) definition of a name is harmless: `image = self._image` in both
             same_def = {n_ for n_ in clash if sole_binding(body, n_) is not None and sole_binding(root.body, n_) == sole_binding(body, n_)}
             clash -= same_def
@@ -586,6 +647,11 @@ class Inliner:
                 stmts[i:i + 1] = rep
                 i += len(rep)
                 continue
+            pre = self._hoist(s, closures)
+            if pre is not None:
+                stmts[i:i] = pre          # `tmp = helper()` inlined in front of the statement that used the call inside an expression
+                i += len(pre)
+                continue                  # (the statement itself is looked at again: it may hold further calls)
             for f in ("body", "orelse", "finalbody"):
                 v = getattr(s, f, None)
                 if isinstance(v, list) and v and isinstance(v[0], ast.stmt) and not isinstance(s, (ast.FunctionDef, ast.ClassDef)):
@@ -596,17 +662,88 @@ class Inliner:
             self._exprs(s, closures)
             i += 1
 
+    _PURE_FUNCS = {"len", "isinstance", "bool", "int", "str", "tuple", "list", "set", "dict", "min", "max", "abs", "round", "type", "getattr", "hasattr", "map", "zip", "range",
+                   "enumerate", "sorted", "reversed", "any", "all", "sum", "repr", "id", "callable", "issubclass", "frozenset", "float", "divmod"}
+
+    def _hoist(self, s, closures):
+        """A multi-statement artefact helper called inside the expression of a simple statement (`if not helper():`, `x = a + helper()`,
+        `return helper() or y`), at a position that is evaluated unconditionally and before anything with side effects: the call is
+        replaced by a fresh temporary and `tmp = helper()` is inlined in front of the statement. -> the inlined statements, or None."""
+        if isinstance(s, ast.If):
+            field = "test"
+        elif isinstance(s, (ast.Assign, ast.AugAssign, ast.AnnAssign, ast.Return, ast.Expr)) and getattr(s, "value", None) is not None:
+            field = "value"
+        else:
+            return None
+        root = getattr(s, field)
+        found = []
+
+        def order(e, cond):
+            """(node, conditional?) for every Call in evaluation order; stops descending at lambdas/comprehensions."""
+            if isinstance(e, (ast.Lambda, ast.ListComp, ast.SetComp, ast.DictComp, ast.GeneratorExp)):
+                yield e, True
+                return
+            if isinstance(e, ast.BoolOp):
+                for k, v in enumerate(e.values):
+                    yield from order(v, cond or k > 0)
+                return
+            if isinstance(e, ast.IfExp):
+                yield from order(e.test, cond)
+                yield from order(e.body, True)
+                yield from order(e.orelse, True)
+                return
+            if isinstance(e, ast.Compare):
+                yield from order(e.left, cond)
+                for k, v in enumerate(e.comparators):
+                    yield from order(v, cond or k > 0)
+                return
+            for ch in ast.iter_child_nodes(e):
+                if isinstance(ch, ast.expr):
+                    yield from order(ch, cond)
+                elif isinstance(ch, ast.keyword):
+                    yield from order(ch.value, cond)
+            if isinstance(e, ast.Call):
+                yield e, cond
+        for n, cond in order(root, False):
+            if isinstance(n, ast.Call):
+                c = self._candidate(n, closures)
+                if c is not None and not cond and n is not root and _single_expr(c[0]) is None:
+                    found.append((n, c))
+                    break
+                fnm = n.func.id if isinstance(n.func, ast.Name) else (n.func.attr if isinstance(n.func, ast.Attribute) else None)
+                if not (isinstance(n.func, ast.Name) and fnm in self._PURE_FUNCS):
+                    return None         # something with possible side effects is evaluated first: the order would change
+            else:
+                continue               # a lambda/comprehension: not evaluated here
+        if not found:
+            return None
+        call, (callee, recv, kind) = found[0]
+        Inliner._fresh = getattr(Inliner, "_fresh", 0) + 1
+        tmp = f"{callee.name.strip('_')}__h{Inliner._fresh}"
+        assign = _loc(ast.Assign(targets=[ast.Name(id=tmp, ctx=ast.Store())], value=call), s)
+        rep = self._stmt(assign, closures)
+        if rep is None:
+            return None
+
+        class R(ast.NodeTransformer):
+            def visit_Call(t, n):
+                if n is call:
+                    return _loc(ast.Name(id=tmp, ctx=ast.Load()), n)
+                return t.generic_visit(n)
+        setattr(s, field, R().visit(root))
+        return rep
+
     def _candidate(self, call, closures):
         if not isinstance(call, ast.Call):
-            return None
+            return _why(601)
         r = self._resolve(call, closures)
         if r is None:
-            return None
+            return _why(604)
         callee, recv, kind = r
         if not is_artefact(getattr(callee, "_defrel", self.rel), callee, nested=(kind == "closure")):
-            return None
+            return _why(607)
         if any(ast.unparse(d).split(".")[-1] not in ("staticmethod", "classmethod", "no_type_check", "override", "final") for d in callee.decorator_list):
-            return None        # a decorated helper is not its body (memoisation, locking, context managers ...): never inlined
+            return _why(609)
         return callee, recv, kind
 
     def _stmt(self, s, closures):
@@ -618,15 +755,15 @@ class Inliner:
         elif isinstance(s, ast.Return) and isinstance(s.value, ast.Call):
             call, mode = s.value, "return"
         if call is None:
-            return None
+            return _why(621)
         c = self._candidate(call, closures)
         if c is None:
-            return None
+            return _why(624)
         callee, recv, kind = c
         keep_names = {x.id for t_ in s.targets for x in ast.walk(t_) if isinstance(x, ast.Name)} if mode == "assign" else set()
         body = self._body_of(callee, call, recv, kind, keep_names)
         if body is None:
-            return None
+            return _why(629)
         rets = _returns(body)
         if mode != "return" and rets and not _tail_returns_only(body):
             _nest_guard_returns(body)
@@ -636,11 +773,11 @@ class Inliner:
                 body = body + [_loc(ast.Return(value=ast.Constant(value=None)), s)]
         elif mode == "stmt":
             if rets and not _tail_returns_only(body):
-                return None
+                return _why(639)
             _replace_tail_returns(body, lambda r: ([_loc(ast.Expr(value=r.value), r)] if r.value is not None and not isinstance(r.value, (ast.Constant, ast.Name)) else [_loc(ast.Pass(), r)]))
         else:  # assign
             if not rets or not _tail_returns_only(body):
-                return None
+                return _why(643)
             tgt = s.targets[0]
 
             def mk(r):
@@ -727,6 +864,7 @@ def normalize_function(model, rel, fn, owner_cls=None):
             il = Inliner(model, rel, owner_cls)
             il.run(n, dict(sib))
             inl.inlined |= il.inlined
+    _append_loops(new)
     new = _Canon().visit(new)
     _guard_clauses(new)
     # nested baseline closures get the canonicalisation too (they were visited by _Canon); guard clauses per nested def:
